@@ -238,9 +238,9 @@ func (fr *frame) block(b *ssa.BasicBlock, st *state) {
 				st.heap["G_sent"] = fmt.Sprintf("(store %s %s (+ (select %s %s) 1))", cur, ch, cur, ch)
 			}
 			// lastSent[ch]: the value most recently sent on ch (declared per element type by the contracts that use it)
-			if fr.lastSentReady(st, x.X.Type()) {
-				cur := c.heapGet(st, "G_lastSent")
-				st.heap["G_lastSent"] = fmt.Sprintf("(store %s %s %s)", cur, fr.val(x.Chan), fr.val(x.X))
+			for _, gk := range fr.lastSentKeys(st, x.X.Type()) {
+				cur := c.heapGet(st, gk)
+				st.heap[gk] = fmt.Sprintf("(store %s %s %s)", cur, fr.val(x.Chan), fr.val(x.X))
 			}
 		case *ssa.Select:
 			c.note("select abstracted: nondeterministic choice, received values unconstrained")
@@ -263,9 +263,9 @@ func (fr *frame) block(b *ssa.BasicBlock, st *state) {
 						cur := c.heapGet(st, "G_sent")
 						st.heap["G_sent"] = fmt.Sprintf("(ite %s (store %s %s (+ (select %s %s) 1)) %s)", chosen, cur, ch, cur, ch, cur)
 					}
-					if fr.lastSentReady(st, sc.Send.Type()) {
-						cur := c.heapGet(st, "G_lastSent")
-						st.heap["G_lastSent"] = fmt.Sprintf("(ite %s (store %s %s %s) %s)", chosen, cur, ch, fr.val(sc.Send), cur)
+					for _, gk := range fr.lastSentKeys(st, sc.Send.Type()) {
+						cur := c.heapGet(st, gk)
+						st.heap[gk] = fmt.Sprintf("(ite %s (store %s %s %s) %s)", chosen, cur, ch, fr.val(sc.Send), cur)
 					}
 				}
 			}
@@ -1001,38 +1001,45 @@ func (ii *initInfo) covered(a *ssa.Alloc, leafPath string) bool {
 	return false
 }
 
-// lastSentReady: the ghost lastSent is declared, and for channels carrying values of this type.
-func (fr *frame) lastSentReady(st *state, elem types.Type) bool {
+// lastSentKeys: the ghosts named lastSent... (one per element type: lastSent for messages, lastSentCtl for control
+// messages) that record sends of values of this type.
+func (fr *frame) lastSentKeys(st *state, elem types.Type) []string {
 	vc := fr.vc
 	c := vc.c
-	gt, ok := vc.w.db.Ghosts["lastSent"]
-	if !ok {
-		return false
-	}
-	pk := fr.fn.Pkg
-	for p := fr.fn.Parent(); pk == nil && p != nil; p = p.Parent() {
-		pk = p.Pkg
-	}
-	tr := &trans{c: c, vars: map[string]tvar{}, cur: st, old: st, depth: 1}
-	if pk != nil {
-		tr.pkg = pk.Pkg.Path()
-	}
-	var vt vtype
-	resolved := func() (ok bool) {
-		defer func() {
-			if r := recover(); r != nil {
-				if _, isTE := r.(transError); !isTE {
-					panic(r)
+	var out []string
+	for _, name := range sortedKeys(vc.w.db.Ghosts) {
+		if !strings.HasPrefix(name, "lastSent") {
+			continue
+		}
+		gt := vc.w.db.Ghosts[name]
+		pk := fr.fn.Pkg
+		for p := fr.fn.Parent(); pk == nil && p != nil; p = p.Parent() {
+			pk = p.Pkg
+		}
+		tr := &trans{c: c, vars: map[string]tvar{}, cur: st, old: st, depth: 1}
+		if pk != nil {
+			tr.pkg = pk.Pkg.Path()
+		}
+		var vt vtype
+		resolved := func() (ok bool) {
+			defer func() {
+				if r := recover(); r != nil {
+					if _, isTE := r.(transError); !isTE {
+						panic(r)
+					}
+					ok = false // the ghost's element type is not visible from this package: no such channel here
 				}
-				ok = false // the ghost's element type is not visible from this package: no such channel here
-			}
+			}()
+			vt = tr.resolveType(gt)
+			return true
 		}()
-		vt = tr.resolveType(gt)
-		return true
-	}()
-	if !resolved {
-		return false
+		if !resolved {
+			continue
+		}
+		c.heapSorts["G_"+name] = vt.sort
+		if vt.sort == fmt.Sprintf("(Array Ref %s)", c.sortOf(elem)) && vc.ensureKey("G_"+name) {
+			out = append(out, "G_"+name)
+		}
 	}
-	c.heapSorts["G_lastSent"] = vt.sort
-	return vt.sort == fmt.Sprintf("(Array Ref %s)", c.sortOf(elem)) && vc.ensureKey("G_lastSent")
+	return out
 }
